@@ -107,3 +107,26 @@ def run(model, rep, rule='C17.COST'):
         rep.check(not bad, rule, fi.loc(), 'cost model on %s (%d name lengths x use counts x candidates)' % (form, n), 'a rename the model approves never makes the printed program longer',
                   '; '.join(bad[:2]), key='%s|%s' % (rule, form), cells=n)
     rep.floor(rule, 8)
+
+
+def run_hoist(model, rep, rule='C17.HOIST'):
+    """Literal hoisting against the printed size: for string / bytes / True-False-None literals of several lengths, used 1..6 times in a function
+    and at module level, the program printed after `rename_literals` + `rename` must not be longer than the program printed without hoisting."""
+    from .hoist_e2e import run_pipeline
+    fi = model.func(R + 'rename_literals.rename_literals')
+    literals = ["'ab'", "'abcd'", "'abcdefgh'", "'a'", "b'xyz'", 'True', 'None', 'False', "'abcdefghijklmnop'"]
+    uses_list = [1, 2, 3, 4, 6] if rep.tier != 'thorough' else [1, 2, 3, 4, 5, 6, 8, 12]
+    for where in ('function', 'module'):
+        bad = []
+        n = 0
+        for lit in (literals if rep.tier == 'thorough' else literals[:6]):
+            for uses in uses_list:
+                items = ', '.join([lit] * uses)
+                source = ('def f():\n    return [%s]\n' % items) if where == 'function' else ('x = [%s]\n' % items)
+                a = run_pipeline(model, source, hoist=False)
+                b = run_pipeline(model, source, hoist=True)
+                n += 1
+                if len(b) > len(a):
+                    bad.append('%s used %d times in a %s: hoisting turns %r (%d characters) into %r (%d characters)' % (lit, uses, where, a, len(a), b, len(b)))
+        rep.check(not bad, rule, fi.loc(), 'hoisting of literals in a %s body (%d literal x use-count cells)' % (where, n), 'the hoisted program is never longer', '; '.join(bad[:2]), key='%s|%s' % (rule, where), cells=n)
+    rep.floor(rule, 2)
